@@ -1744,6 +1744,10 @@ impl<'a> CompilerState<'a> {
                                             if s < v.len() {
                                                 return Err(self.syntax_error("Specified array size is different from actual definition", start));
                                             }
+                                            // No array exceeds the address space of the processor
+                                            if s > 0x10000 {
+                                                return Err(self.syntax_error("Specified array size is too large", start));
+                                            }
                                             while v.len() < s {
                                                 v.push(VariableValue::Int(0));
                                             }
